@@ -5,15 +5,37 @@ after the noise and depend only on the bounds.
 
 All statements are about the executable model `DPL/Model/Samplers.lean` (the same definitions the driver runs on
 doubles against the real `randomise`), instantiated at ℝ.  Randomness is explicit: a sampler is a function of its
-uniform / normal / gamma / geometric draws, so "law" means Lebesgue measure of a preimage in [0,1).
+uniform / normal / gamma / geometric draws.  In §3 "law" means Lebesgue measure of a preimage in [0,1); in §8 it means
+the PUSH-FORWARD MEASURE of the product of the laws of the draws (`unif01 = volume.restrict [0,1)` for `random()`,
+Mathlib's `gaussianReal 0 1` for `normalvariate(0,1)`) under the model's sampler function.
 
-NOT proved here (validated statistically by the harness, listed as `UNPROVED` in the evidence): that
-`log(1-u₁)cos(πu₂)+log(1-u₃)cos(πu₄)` is standard Laplace, that `(N₁+N₂)/√2` is standard normal, that four
-`Gamma(d/4)` draws sum to `Gamma(d)`, that a normalised Gaussian vector is uniform on the sphere, and Bingham's
-rejection sampler.
+PROVED in §8 (these were statistical validations only before):
+  * `(N₁+N₂)/√2` is standard normal, and `Gaussian.randomise` has the law `N(value, scale²)` (`gauss_unit_law`,
+    `gauss_mech_law`) — the law C02's `gauss_classical_dp` is about;
+  * Holohan–Braghin: `log(1-u₁)cos(πu₂)+log(1-u₃)cos(πu₄)` is standard Laplace (`laplace4_law`), via the
+    characteristic functions `1/√(1+t²)` of one term (`laplace4_term_charFun`) and `e^{itx}/(1+b²t²)` of the Laplace law
+    (`laplace_charFun`); hence `Laplace.randomise` has C02's `lapMeasure scale value` (`laplace_mech_law`), the
+    truncated / folded mechanisms its push-forwards (`laplace_truncated_folded_law`), and THE SAMPLER ITSELF is
+    (ε, δ)-DP (`laplace_sampler_dp`, `laplace_truncated_folded_sampler_dp`: C02's inequality, now about the four uniforms);
+  * `−log(1−U) ~ Exp(1)` as a push-forward (`exp_of_uniform_map`);
+  * acceptance–rejection over an i.i.d. stream (product measure on `ℕ → Ω`): the first accepted draw has the law of one
+    draw conditioned on acceptance (`rejection_conditional_law`); instances: the conditioned Laplace law of
+    `LaplaceBoundedDomain` (`boundedDomain_law`) and the discrete Gaussian pmf of the Canonne–Kamath–Steinke loop given
+    the one-pass law `cksPassProb` (`discrete_gauss_loop_law`).
+
+NOT proved here (validated statistically by the harness, listed as `UNPROVED` in the evidence; each kept as a
+`def …_full : Prop` at the end of §8): that four `Gamma(d/4)` draws sum to `Gamma(d)` (`gamma_sum_full`: Mathlib has
+`gammaMeasure` but neither its convolution nor its characteristic function — the Gamma integral is only available for a
+REAL rate), that a normalised Gaussian vector is uniform on the sphere, that the passes of the model's `cksLoop` /
+`rejLoop` over an i.i.d. UNIFORM stream are i.i.d. with the one-pass law (`cks_passes_iid_full`: a renewal argument
+over a variable number of consumed uniforms; the batch layout of `rejLoop` is a fixed permutation of coordinates), and
+Bingham's rejection sampler.
 -/
 import DPL.Proofs.SamplersLaws
 import DPL.Proofs.SamplersBern
+import DPL.Proofs.SamplersGaussLaw
+import DPL.Proofs.SamplersLap4Law
+import DPL.Proofs.SamplersRejection
 
 namespace DPL.C03
 open DPL DPL.Smp MeasureTheory Set
@@ -385,5 +407,196 @@ theorem bingham_accept_cex : ¬ C03_bingham_full := by
   unfold binghamAcceptCoded binghamAcceptKGM at h1
   simp only [transc_exp, transc_pow, neg_zero, Real.exp_zero] at h1
   norm_num at h1
+
+/-! ### 8. laws as push-forward measures
+
+`unif01` is Lebesgue measure on [0,1) (one `random()` draw), `unif01x4` four independent draws in the order drawn,
+`gaussianReal 0 1` one `normalvariate(0,1)` draw, `Cont.lapMeasure b x` the Laplace law of C02 (density
+`e^{-|y-x|/b}/(2b)`), `Measure.infinitePi (fun _ => P)` an i.i.d. stream with one-draw law `P`. -/
+
+open ProbabilityTheory in
+/-- **`(N₁ + N₂)/√2` is standard normal**: push-forward of `N(0,1) ⊗ N(0,1)` under the model's `gaussUnit` -/
+theorem gauss_unit_law :
+    ((gaussianReal 0 1).prod (gaussianReal 0 1)).map (fun n : ℝ × ℝ => gaussUnit n.1 n.2) = gaussianReal 0 1 :=
+  gaussUnit_map
+
+open ProbabilityTheory in
+/-- `Gaussian.randomise` / `GaussianAnalytic.randomise` on two independent standard normals has the law
+`N(value, scale²)` (the `gaussianReal x (sqNN σ)` of C02's `gauss_classical_dp`) -/
+theorem gauss_mech_law (scale x : ℝ) :
+    ((gaussianReal 0 1).prod (gaussianReal 0 1)).map (fun n : ℝ × ℝ => gauss scale x n.1 n.2)
+      = gaussianReal x (.mk (scale ^ 2) (sq_nonneg _)) :=
+  gauss_map scale x
+
+open ProbabilityTheory in
+/-- `−log(1−U) ~ Exp(1)`: `exp_of_uniform_law` as a push-forward -/
+theorem exp_of_uniform_map : unif01.map (fun u : ℝ => -Real.log (1 - u)) = expMeasure 1 := neglog_map
+
+/-- one term of the 4-uniform sampler: `E[exp(i t log(1−U) cos(πV))] = ∫₀¹ dv/(1 + i t cos πv) = 1/√(1+t²)` -/
+theorem laplace4_term_charFun (t : ℝ) :
+    charFun ((unif01.prod unif01).map (fun p : ℝ × ℝ => Real.log (1 - p.1) * Real.cos (Real.pi * p.2))) t
+      = ((1 / Real.sqrt (1 + t ^ 2) : ℝ) : ℂ) :=
+  charFun_lapTerm t
+
+/-- characteristic function of the Laplace law: `e^{itx}/(1 + b²t²)` -/
+theorem laplace_charFun (b x t : ℝ) (hb : 0 < b) :
+    charFun (Cont.lapMeasure b x) t = Complex.exp (t * x * Complex.I) / (1 + (b : ℂ) ^ 2 * (t : ℂ) ^ 2) :=
+  charFun_lapMeasure b x t hb
+
+/-- **Holohan–Braghin**: for four independent uniforms on [0,1) the model's `lap4` (= `Laplace._laplace_sampler`) has
+the standard Laplace law -/
+theorem laplace4_law :
+    unif01x4.map (fun u : ℝ × ℝ × ℝ × ℝ => lap4 u.1 u.2.1 u.2.2.1 u.2.2.2) = Cont.lapMeasure 1 0 :=
+  lap4_map
+
+/-- `Laplace.randomise` on four independent uniforms has the Laplace law with the coded scale, centred at the input -/
+theorem laplace_mech_law (eps delta sens x : ℝ) (hb : 0 < laplaceScale eps delta sens) :
+    unif01x4.map (fun u : ℝ × ℝ × ℝ × ℝ => laplace eps delta sens x u.1 u.2.1 u.2.2.1 u.2.2.2)
+      = Cont.lapMeasure (laplaceScale eps delta sens) x :=
+  laplace_map eps delta sens x hb
+
+/-- non-vacuity: the coded scale is positive for ε = 1, δ = 0, sensitivity 1 -/
+example : 0 < laplaceScale (1 : ℝ) 0 1 := by norm_num [laplaceScale]
+
+/-- `LaplaceTruncated` / `LaplaceFolded`: push-forward of that Laplace law under `_truncate` / `_fold` -/
+theorem laplace_truncated_folded_law (eps delta sens lo hi x : ℝ) (hb : 0 < laplaceScale eps delta sens) :
+    unif01x4.map (fun u : ℝ × ℝ × ℝ × ℝ => laplaceTruncated eps delta sens lo hi x u.1 u.2.1 u.2.2.1 u.2.2.2)
+      = (Cont.lapMeasure (laplaceScale eps delta sens) x).map (truncate lo hi) ∧
+    unif01x4.map (fun u : ℝ × ℝ × ℝ × ℝ => laplaceFolded eps delta sens lo hi x u.1 u.2.1 u.2.2.1 u.2.2.2)
+      = (Cont.lapMeasure (laplaceScale eps delta sens) x).map (fun v => fold lo hi v) := by
+  rw [← laplace_mech_law eps delta sens x hb,
+    Measure.map_map (measurable_truncate lo hi) (measurable_laplace eps delta sens x),
+    Measure.map_map (measurable_fold lo hi 16) (measurable_laplace eps delta sens x)]
+  exact ⟨rfl, rfl⟩
+
+/-- **the Laplace sampler itself is (ε, δ)-DP**: for inputs at most `sens` apart and every measurable output set, the
+probability (over the four uniforms) that `Laplace.randomise` lands in the set satisfies the (ε, δ) inequality.
+(`laplace_mech_law` + the density-ratio argument of C02's `laplace_dp`.) -/
+theorem laplace_sampler_dp (eps delta sens x x' : ℝ) (hs : 0 < sens) (hd0 : 0 ≤ delta) (hd1 : delta < 1)
+    (hpos : 0 < eps - Real.log (1 - delta)) (hx : |x - x'| ≤ sens) (S : Set ℝ) (hS : MeasurableSet S) :
+    unif01x4 ((fun u : ℝ × ℝ × ℝ × ℝ => laplace eps delta sens x u.1 u.2.1 u.2.2.1 u.2.2.2) ⁻¹' S)
+      ≤ ENNReal.ofReal (Real.exp eps)
+          * unif01x4 ((fun u : ℝ × ℝ × ℝ × ℝ => laplace eps delta sens x' u.1 u.2.1 u.2.2.1 u.2.2.2) ⁻¹' S)
+        + ENNReal.ofReal delta := by
+  have hb : 0 < laplaceScale eps delta sens := by
+    simp only [laplaceScale, transc_log]; positivity
+  rw [← Measure.map_apply (measurable_laplace eps delta sens x) hS,
+    ← Measure.map_apply (measurable_laplace eps delta sens x') hS,
+    laplace_mech_law eps delta sens x hb, laplace_mech_law eps delta sens x' hb, laplaceScale_eq_cont]
+  have hb' : 0 < Cont.laplaceScale eps delta sens := by rw [← laplaceScale_eq_cont]; exact hb
+  apply Cont.approx_of_scaled_ennreal _ _ _ _ (Cont.lapMeasure_le_one _ _ hb' S) hd0 hd1
+  rw [← Cont.exp_sens_div_laplaceScale eps delta sens hs hd1 hpos]
+  exact Cont.lapMeasure_ratio _ x x' sens hb' hx S hS
+
+/-- non-vacuity of the hypotheses of `laplace_sampler_dp` (ε = 1, δ = 1/2, sens = 1) -/
+example : (0:ℝ) < 1 ∧ (0:ℝ) ≤ 1/2 ∧ (1/2:ℝ) < 1 ∧ 0 < (1:ℝ) - Real.log (1 - 1/2) ∧ |(0:ℝ) - 1| ≤ 1 := by
+  refine ⟨by norm_num, by norm_num, by norm_num, ?_, by norm_num⟩
+  have : Real.log (1 - 1/2) < 0 := Real.log_neg (by norm_num) (by norm_num)
+  linarith
+
+/-- … and so are `LaplaceTruncated` and `LaplaceFolded` as sampled (`truncated_folded_inherit` with its hypothesis
+discharged for the uniform product measure) -/
+theorem laplace_truncated_folded_sampler_dp (eps delta sens lo hi x x' : ℝ) (hs : 0 < sens) (hd0 : 0 ≤ delta)
+    (hd1 : delta < 1) (hpos : 0 < eps - Real.log (1 - delta)) (hx : |x - x'| ≤ sens) :
+    (∀ S : Set ℝ, MeasurableSet S →
+      unif01x4 ((fun u => laplaceTruncated eps delta sens lo hi x u.1 u.2.1 u.2.2.1 u.2.2.2) ⁻¹' S)
+        ≤ ENNReal.ofReal (Real.exp eps)
+            * unif01x4 ((fun u => laplaceTruncated eps delta sens lo hi x' u.1 u.2.1 u.2.2.1 u.2.2.2) ⁻¹' S)
+          + ENNReal.ofReal delta) ∧
+    (∀ S : Set ℝ, MeasurableSet S →
+      unif01x4 ((fun u => laplaceFolded eps delta sens lo hi x u.1 u.2.1 u.2.2.1 u.2.2.2) ⁻¹' S)
+        ≤ ENNReal.ofReal (Real.exp eps)
+            * unif01x4 ((fun u => laplaceFolded eps delta sens lo hi x' u.1 u.2.1 u.2.2.1 u.2.2.2) ⁻¹' S)
+          + ENNReal.ofReal delta) :=
+  truncated_folded_inherit eps delta sens lo hi x x' _ _ unif01x4
+    (fun S hS => laplace_sampler_dp eps delta sens x x' hs hd0 hd1 hpos hx S hS)
+
+/-- **acceptance–rejection over an i.i.d. stream**: if the draws `ω 0, ω 1, …` are independent with law `P`, the first
+one that lies in the acceptance set `A` lies in `B` with probability `P(A ∩ B)/P(A)` — the law of one draw conditioned
+on acceptance.  (`rejection_first_accepted` says that the loop returns exactly that first accepted candidate.) -/
+theorem rejection_conditional_law {Ω : Type} [MeasurableSpace Ω] (P : Measure Ω) [IsProbabilityMeasure P]
+    {A B : Set Ω} (hA : MeasurableSet A) (hB : MeasurableSet B) :
+    Measure.infinitePi (fun _ : ℕ => P) {ω | ∃ n, (∀ m < n, ω m ∉ A) ∧ ω n ∈ A ∧ ω n ∈ B} = P (A ∩ B) / P A :=
+  firstAcceptedIn_measure P hA hB
+
+/-- `LaplaceBoundedDomain`: candidates `v + scale·Lₙ` with i.i.d. standard-Laplace `Lₙ` (the law of each `lap4` draw,
+`laplace4_law`), accepted when in `[lo, hi]`: the released value has the Laplace law `lapMeasure scale v` conditioned on
+`[lo, hi]` -/
+theorem boundedDomain_law (scale lo hi v : ℝ) (hs : 0 < scale) (S : Set ℝ) (hS : MeasurableSet S) :
+    Measure.infinitePi (fun _ : ℕ => Cont.lapMeasure 1 0)
+        {ω | ∃ n, (∀ m < n, ¬ (v + scale * ω m ∈ Icc lo hi)) ∧ v + scale * ω n ∈ Icc lo hi ∧ v + scale * ω n ∈ S}
+      = Cont.lapMeasure scale v (Icc lo hi ∩ S) / Cont.lapMeasure scale v (Icc lo hi) := by
+  have : IsProbabilityMeasure (Cont.lapMeasure 1 0) := lapMeasure_prob 1 0 one_pos
+  have hm : Measurable (fun l : ℝ => v + scale * l) := measurable_const.add (measurable_const.mul measurable_id)
+  have h := rejection_conditional_law (Cont.lapMeasure 1 0) (A := (fun l : ℝ => v + scale * l) ⁻¹' Icc lo hi)
+    (B := (fun l : ℝ => v + scale * l) ⁻¹' S) (hm measurableSet_Icc) (hm hS)
+  have haff := lapMeasure_affine' scale v hs.ne'
+  rw [abs_of_pos hs] at haff
+  rw [← haff, Measure.map_apply hm (measurableSet_Icc.inter hS), Measure.map_apply hm measurableSet_Icc,
+    Set.preimage_inter]
+  exact h
+
+/-- **Canonne–Kamath–Steinke loop**: if the passes of the outer loop are i.i.d. (law `P` on any outcome space `Ω`), a pass
+is accepted on `A` with integer output `out`, and the one-pass probability of "accepted with output `y`" is
+`cksPassProb τ σ² |y|` (geometric proposal × fair sign × Bernoulli(e^{−γ}) acceptance, `discrete_gauss_law`,
+`bernoulli_neg_exp_law`), then the first accepted output is `y` with probability
+`e^{−y²/(2σ²)} / Σ_z e^{−z²/(2σ²)}`: the discrete Gaussian. -/
+theorem discrete_gauss_loop_law {Ω : Type} [MeasurableSpace Ω] (P : Measure Ω) [IsProbabilityMeasure P]
+    {A : Set Ω} (hA : MeasurableSet A) (out : Ω → ℤ) (hout : ∀ y, MeasurableSet (out ⁻¹' {y}))
+    (tau sigma2 : ℝ) (ht : 0 < tau) (hs : sigma2 ≠ 0)
+    (hpass : ∀ y : ℤ, P (A ∩ out ⁻¹' {y}) = ENNReal.ofReal (cksPassProb tau sigma2 y.natAbs)) (y : ℤ) :
+    Measure.infinitePi (fun _ : ℕ => P) {ω | ∃ n, (∀ m < n, ω m ∉ A) ∧ ω n ∈ A ∧ out (ω n) = y}
+      = ENNReal.ofReal (Real.exp (-((y : ℝ) ^ 2 / (2 * sigma2))))
+          / ∑' z : ℤ, ENNReal.ofReal (Real.exp (-((z : ℝ) ^ 2 / (2 * sigma2)))) := by
+  set c : ℝ := (1 - Real.exp (-tau)) * (1 / 2) * Real.exp (-(tau ^ 2 * sigma2 / 2)) with hc
+  have hcpos : 0 < c := by
+    have : Real.exp (-tau) < 1 := by rw [Real.exp_lt_one_iff]; linarith
+    have : 0 < 1 - Real.exp (-tau) := by linarith
+    positivity
+  have hw : ∀ z : ℤ, P (A ∩ out ⁻¹' {z})
+      = ENNReal.ofReal c * ENNReal.ofReal (Real.exp (-((z : ℝ) ^ 2 / (2 * sigma2)))) := by
+    intro z
+    rw [hpass z, discrete_gauss_law tau sigma2 hs, ENNReal.ofReal_mul hcpos.le]
+    congr 3
+    rw [← Int.cast_natCast, Int.natCast_natAbs, Int.cast_abs, sq_abs]
+  exact firstAccepted_proportional P hA out hout (ENNReal.ofReal c) (by simpa using hcpos) ENNReal.ofReal_ne_top
+    _ hw y
+
+/-- non-vacuity of `discrete_gauss_loop_law`'s one-pass hypothesis shape: at `y = 0` the pass probability is
+`(1−e^{−τ})·½·e^{−γ(0)}`, positive -/
+example : 0 < cksPassProb (1 : ℝ) 1 0 := by
+  unfold cksPassProb
+  have : Real.exp (-(1:ℝ)) < 1 := by rw [Real.exp_lt_one_iff]; norm_num
+  have : 0 < 1 - Real.exp (-(1:ℝ)) := by linarith
+  positivity
+
+/-! statements that remain unproved (validated statistically by the harness) -/
+
+open ProbabilityTheory in
+/-- Vector mechanism's norm: four independent `Gamma(d/4, 1)` draws times `scale` sum to `Gamma(d, rate 1/scale)`.
+MISSING: the characteristic function (or convolution) of `gammaMeasure`.  Mathlib's Gamma integral
+`Complex.integral_cpow_mul_exp_neg_mul_Ioi` is stated for a REAL rate only; the characteristic function needs the complex
+rate `r − it` (analytic continuation in the rate, or uniqueness from the real Laplace transform on a half-line via
+`eqOn_complexMGF_of_mgf`, which needs the mgf on all of ℝ incl. non-integrability for `t ≥ r`).  Everything after that
+(`integral_prod_mul`, `cpow_nat_mul`, `Measure.ext_of_charFun`) is as in `laplace4_law`. -/
+def gamma_sum_full : Prop :=
+  ∀ (d scale : ℝ), 0 < d → 0 < scale →
+    ((gammaMeasure (d / 4) 1).prod ((gammaMeasure (d / 4) 1).prod ((gammaMeasure (d / 4) 1).prod
+        (gammaMeasure (d / 4) 1)))).map
+      (fun g : ℝ × ℝ × ℝ × ℝ => vecNorm scale [g.1, g.2.1, g.2.2.1, g.2.2.2])
+      = gammaMeasure d (1 / scale)
+
+/-- the passes of the model's `cksLoop` over an i.i.d. uniform stream are i.i.d. with the one-pass law `cksPassProb`
+(the hypothesis `hpass` + independence of `discrete_gauss_loop_law`), stated as its consequence for the model.
+MISSING: (i) the composition of the branch laws inside one pass — `geomCount` is itself a loop of `bernNegExp` calls and
+`bernNegExp` recurses for γ > 1 — into `cksPassProb`; (ii) a renewal argument: a pass consumes a random, unbounded
+number of uniforms, so "the rest of the stream after a pass is again i.i.d. uniform and independent of the pass" has to
+be proved for the stopping position (strong Markov property of the product measure). -/
+def cks_passes_iid_full : Prop :=
+  ∀ (scale : ℝ), 0 < scale → ∀ y : ℤ,
+    Measure.infinitePi (fun _ : ℕ => unif01)
+        {ω | ∃ N fuel, ∃ rest, cksLoop (cksTau scale) (cksSigma2 scale) fuel ((List.range N).map ω) = some (y, rest)}
+      = ENNReal.ofReal (Real.exp (-((y : ℝ) ^ 2 / (2 * cksSigma2 scale))))
+          / ∑' z : ℤ, ENNReal.ofReal (Real.exp (-((z : ℝ) ^ 2 / (2 * cksSigma2 scale))))
 
 end DPL.C03
